@@ -11,7 +11,9 @@ use std::panic::{catch_unwind, AssertUnwindSafe};
 pub struct C19;
 
 #[derive(Clone, Debug, Serialize, Deserialize)]
-pub struct Case { pub choices: Vec<u32>, pub mutate: bool, pub n: u8 }
+pub struct Case { pub choices: Vec<u32>, pub mutate: bool, pub n: u8,
+  /// operator / function zoo: (template index, operand variant) — a one-operator assignment-free program; `choices` is ignored
+  #[serde(default)] pub zoo: Option<(u16, u32)> }
 
 pub fn choices_s(max: usize) -> BoxedStrategy<Vec<u32>> { proptest::collection::vec(0u32..100_000, 6..=max).boxed() }
 
@@ -21,7 +23,15 @@ impl Prop for C19 {
   fn budget(t: Tier) -> u32 { t.pick(4_000, 60_000) }
   fn strategy(t: Tier, _k: &Known) -> BoxedStrategy<Case> {
     let maxn = t.pick(6u8, 40u8);
-    (choices_s(90), any::<bool>(), 0..=maxn).prop_map(|(choices, mutate, n)| Case { choices, mutate, n }).boxed()
+    let prog = (choices_s(90), any::<bool>(), 0..=maxn).prop_map(|(choices, mutate, n)| Case { choices, mutate, n, zoo: None }).boxed();
+    let zoo = (0..ZOO.len() as u16, any::<u32>(), 1..=maxn).prop_map(|(i, a, n)| Case { choices: vec![], mutate: false, n, zoo: Some((i, a)) }).boxed();
+    prop_oneof![4 => prog, 1 => zoo].boxed()
+  }
+  fn fixed_cases(_t: Tier) -> Vec<Case> {
+    // every template of the zoo, three operand variants, two step counts
+    let mut out = vec![];
+    for i in 0..ZOO.len() as u16 { for a in [0u32, 1, 5] { for n in [1u8, 3] { out.push(Case { choices: vec![], mutate: false, n, zoo: Some((i, a)) }); } } }
+    out
   }
   fn rule() -> &'static str {
     "case = a program from the shared typed generator (defines of scalars/strings/bools/matrices of several kinds, arithmetic, \
@@ -35,7 +45,50 @@ impl Prop for C19 {
   fn check(c: &Case, _cx: &Cx) -> Verdict { check(c) }
 }
 
-pub fn program(c: &Case) -> Program { progs::build(&c.choices, Opts { allow_mutation: c.mutate, allow_noncore: true, max_stmts: 12, trailing_other: false }) }
+pub fn program(c: &Case) -> Program {
+  if let Some((i, a)) = c.zoo { return zoo_program(i, a); }
+  progs::build(&c.choices, Opts { allow_mutation: c.mutate, allow_noncore: true, max_stmts: 12, trailing_other: false })
+}
+
+/// one-operator programs: every operator family and stdlib function the documentation lists, each on operands for which re-evaluating
+/// the step is not a fixed point of an accidental accumulation (`$…` placeholders are filled from the operand variant)
+pub const ZOO: &[&str] = &[
+  "x := $A + $B", "x := $A - $B", "x := $A * $B", "x := $A / $B", "x := $A ^ $s", "x := $A % $s", "x := $A ** $B", "x := $A \\ $v", "x := $r · $r2", "x := $A'", "x := -$A", "x := $A + $s", "x := $s - $A", "x := $A * $w", "x := $w + $A", "x := $v + $A",
+  "x := $A > $B", "x := $A <= $B", "x := $A == $B", "x := $A != $s", "x := ($A > $s) && ($B > $s)", "x := ($A > $s) || ($B > $s)", "x := ($A > $s) ⊕ ($B > $s)", "x := !($A > $s)",
+  "x := $s + $t", "x := $s - $t", "x := $s * $t", "x := $s / $t", "x := $s ^ 2", "x := $s % $t", "x := -$s", "x := $s > $t", "x := $i + $j", "x := $i * $j", "x := $i - 1<u8>", "x := $q + $q2", "x := $q * $q2", "x := $c + $c2", "x := $c * $c2",
+  "x := math/sin($A)", "x := math/cos($s)", "x := math/tan($s)", "x := math/asin(0.5)", "x := math/acos(0.5)", "x := math/atan($s)", "x := math/atan2($s, $t)", "x := math/sinh($s)", "x := math/cosh($s)", "x := math/tanh($A)", "x := math/sqrt($A)", "x := math/log($s)", "x := math/abs(-$A)", "x := math/floor($A / 2)", "x := math/ceil($A / 2)", "x := math/round($s / 3)", "x := math/trunc($s / 3)",
+  "x := stats/sum/row($A)", "x := stats/sum/column($A)", "x := stats/sum/row($v)", "x := stats/sum/column($r)", "x := matrix/transpose($A)", "x := compare/max($s, $t)", "x := compare/min($A, $B)", "x := combinatorics/n-choose-k(5, 2)",
+  "y := $r\nx := y[2]", "y := $A\nx := y[1,2]", "y := $A\nx := y[:,1]", "y := $A\nx := y[2,:]", "y := $r\nx := y[[1 3]]", "y := $r\nx := y[1..=2]", "y := $r\nx := y[y > $s]", "y := $A\nx := y[:]", "x := 1..5", "x := 1..=5", "x := 1..2..9", "x := $i..$j2", "x := [$r; $r2]", "x := [$v $v]", "x := [$A $v; $r]",
+  "x<[u8]> := $r", "x<[f64]:1,4> := $A", "x<f32> := $s", "x<{f64}> := $r", "x := $s<u8>", "x<string> := $s",
+  "x := $S ∪ $T", "x := $S ∩ $T", "x := $S ∖ $T", "x := $S Δ $T", "x := $S ⊆ $T", "x := $s ∈ $S", "x := set/size($S)", "x := set/insert($S, $t)", "x := set/remove($S, $s)", "x := {w * 2 | w <- $S}", "x := {w | w <- $S, w > $s}", "x := [w * w | w <- $r]",
+  "x := $tb ⋈ $tc", "x := $tb ⟕ $tc", "x := $tb ⟖ $tc", "x := $tb ⟗ $tc", "x := $tb ⋉ $tc", "x := $tb ▷ $tc", "x := table/join($tb, $tc)", "y := $tb\nx := y.a", "y := $tb\nx := y[1]",
+  "x := \"ab\" + \"cd\"", "x := (1, $s, \"t\")", "x := {a: $s, b: $t}", "y := {a: $s, b: $t}\nx := y.b", "y := ($s, $t)\nx := y.2", "x := {\"k\": $s}",
+  "f(k<f64>) => <f64>\n  ├ 0 => 1\n  └ m => m * 2.\nx := f($s)", "f(k<f64>) => <f64>\n  ├ 0 => 1\n  └ m => m * 2.\nx := f($r)", "y := $s\nx<f64> := y?\n  | 1 => 10\n  | w, w > 2 => 20\n  | * => 0.",
+  "#M(n<u64>) => <u64>\n  ├ :A(n<u64>)\n  └ :Done(out<u64>).\n\n#M(n<u64>) -> :A(n)\n  :A(n)\n    ├ n > 2u64 -> :A(n - 1u64)\n    └ * -> :Done(n)\n  :Done(out) => out.\n\nx := #M(6u64)",
+];
+
+fn zoo_program(i: u16, a: u32) -> Program {
+  let a = a as usize;
+  let f = |k: usize| format!("{}.{}", (a + k) % 7 + 2, [5, 0, 25][(a / 7 + k) % 3]);
+  let t = ZOO[i as usize % ZOO.len()];
+  let mut pre: Vec<String> = vec![];
+  let mut body = t.to_string();
+  // longest placeholders first
+  let subs: Vec<(&str, String, String)> = vec![
+    ("$r2", "r2".into(), format!("[{} {} {}]", f(5), f(6), f(7))), ("$q2", "q2".into(), format!("{}/{}", a % 5 + 1, 3)), ("$c2", "c2".into(), format!("{}+{}i", a % 3 + 1, a % 4 + 2)), ("$j2", "j2".into(), format!("{}<u8>", a % 4 + 6)),
+    ("$tb", "tb".into(), format!("| k<u8> a<f64> | 1 {} | 2 {} | 2 {} |", f(0), f(1), f(2))), ("$tc", "tc".into(), format!("| k<u8> b<string> | 2 \"p\" | 3 \"q\" | 2 \"r\" |")),
+    ("$A", "ma".into(), format!("[{} {}; {} {}]", f(0), f(1), f(2), f(4))), ("$B", "mb".into(), format!("[{} {}; {} {}]", f(3), f(2), f(1), f(5))), ("$w", "rw".into(), format!("[{} {}]", f(6), f(2))), ("$v", "cv".into(), format!("[{}; {}]", f(1), f(3))), ("$r", "rv".into(), format!("[{} {} {}]", f(2), f(0), f(4))),
+    ("$S", "sa".into(), format!("{{{}, {}, {}}}", f(0), f(1), f(2))), ("$T", "sb".into(), format!("{{{}, {}, {}}}", f(1), f(2), f(3))),
+    ("$s", "sc".into(), f(0)), ("$t", "tc2".into(), f(3)), ("$i", "ui".into(), format!("{}<u8>", a % 5 + 2)), ("$j", "uj".into(), format!("{}<u8>", a % 3 + 3)), ("$q", "qa".into(), format!("{}/{}", a % 4 + 1, 7)), ("$c", "ca".into(), format!("{}+{}i", a % 5 + 1, a % 2 + 1)),
+  ];
+  // odd variants bind operands to variables first (a variable operand takes its own dispatch arm), even ones write them inline
+  for (ph, name, lit) in subs { if body.contains(ph) { if a % 2 == 1 { pre.push(format!("{} := {}", name, lit)); body = body.replace(ph, &name); } else { body = body.replace(ph, &lit); } } }
+  let mut lines = pre;
+  lines.extend(body.split('\n').map(|l| l.to_string()));
+  // function / machine definitions span lines: keep the template text as one unit
+  let lines = if t.contains("=>") || t.contains("#M") { let mut v: Vec<String> = lines.iter().filter(|l| l.contains(" := ") && !l.starts_with("x") && !l.starts_with("y")).cloned().collect(); v.push(body.clone()); v } else { lines };
+  Program { lines, mutating: false, core: false, order_sensitive: true, features: vec![format!("zoo:{}", t.lines().last().unwrap_or("").chars().take(28).collect::<String>())] }
+}
 
 enum Run { Ok(Snapshot, RVal, Snapshot, Option<RVal>, Vec<String>), Rejected(String), StepFailed(String) }
 
